@@ -540,7 +540,7 @@ func checkRejectionUV(t *vlib.T) {
 		rej.Sample(batch)
 		cur = batch[0]
 		// reference: replay the same answers through the definition
-		ref := &gridSrc{a: a, idx: src.idx, cont: splitmix{pathSeed(src.idx)}, limit: drawCap}
+		ref := &gridSrc{a: a, idx: src.idx, cont: splitmix{pathSeed(src.idx)}, limit: drawCap, kinds: src.kinds}
 		rr := rand.New(ref)
 		nprop := 0
 		var want float64
